@@ -338,6 +338,9 @@ def judge(chk, c, name, corr):
     if c['known'] is None:
         chk.count('in_domain_not_known')
     good = bool(c['good'])
+    if c['extract_notes'] and not equal and not good:
+        chk.unreadable(c['lang'], payload_of(c), c['extract_notes'])
+        return
     if good and c['known'] is not None:
         # the class claims nothing here; counted so that a class wider than the failing inputs shows up in the evidence
         chk.count('known_but_good_' + c['known'])
